@@ -50,7 +50,7 @@ type HCase struct {
 // heldKinds are the values of this sub-check: scalars, and slices / maps / a pointer / a function as reference
 // values. Struct values are left out on purpose (anko treats a struct value as a reference).
 var heldScalars = []string{"int", "float", "str", "true", "false", "nil"}
-var heldRefs = []string{"sl_t_int64", "sl_two", "mp_t_si", "mp_str", "pt_int5", "fn1"}
+var heldRefs = []string{"sl_t_int64", "sl_two", "mp_t_si", "mp_str", "pt_int5", "fn1", "ch_open"}
 
 // other returns the prelude statement that creates, in variable name, the value the place is overwritten with:
 // same type as v, different content.
@@ -83,6 +83,8 @@ func other(v Val, name string) string {
 		return compoundByName["pt_int0"].mk(name)
 	case "fn1":
 		return name + ` = func(a){ return ["other", a] }`
+	case "ch_open":
+		return name + " = make(chan int64, 4)\n" + name + " <- 30"
 	}
 	panic("other of " + v.K)
 }
@@ -97,6 +99,8 @@ func touch(v Val, name string) string {
 		return name + `["t"] = 70`
 	case "pt_int5":
 		return "*" + name + " = 70"
+	case "ch_open":
+		return name + " <- 70"
 	}
 	return ""
 }
@@ -231,7 +235,7 @@ var htemplates = []htemplate{
 	{name: "var", family: "bind", weight: 4, ops: []string{"top", "infunc", "cfor"}},
 	{name: "let2", family: "bind", weight: 2, ops: []string{"first", "second"}},
 	{name: "var2", family: "bind", weight: 2, ops: []string{"first", "second"}},
-	{name: "letitem", family: "bind", weight: 2},
+	{name: "letitem", family: "bind", weight: 2, ops: []string{"new", "existing"}},
 	{name: "send", family: "bind", weight: 1},
 	{name: "store", family: "bind", weight: 1, ops: []string{"elem", "entry"}},
 	{name: "param", family: "bind", weight: 8, ops: []string{"named", "anon", "closure", "variadic", "second", "afterreturn", "module"}},
@@ -356,9 +360,7 @@ func genHCase(t *rapid.T) HCase {
 
 // ---------------------------------------------------------------- rendering
 
-const heldPrelude = `x = nil
-y = nil
-hfin = nil
+const heldPrelude = `hfin = nil
 hrec = func(a...){ hacc += [a] }
 module hmod {
 func keep(q, o) { return q }
@@ -458,7 +460,7 @@ func bindBody(c HCase, R, raw, O string) string {
 			// x is a local of the function
 			return seq("func g() {", "lx = "+R, O, touch(c.V, "lx"), "return lx", "}", "x = g()")
 		case "cfor":
-			return seq("for lx = "+R+"; hn < 1; hn++ {", O, "x = lx", "}", tch)
+			return seq("x = nil", "for lx = "+R+"; hn < 1; hn++ {", O, "x = lx", "}", tch)
 		}
 		return seq("x = "+R, O, tch)
 	case "var":
@@ -466,7 +468,7 @@ func bindBody(c HCase, R, raw, O string) string {
 		case "infunc":
 			return seq("func g() {", "var lx = "+R, O, touch(c.V, "lx"), "return lx", "}", "x = g()")
 		case "cfor":
-			return seq("for var lx = "+R+"; hn < 1; hn++ {", O, "x = lx", "}", tch)
+			return seq("x = nil", "for var lx = "+R+"; hn < 1; hn++ {", O, "x = lx", "}", tch)
 		}
 		return seq("var x = "+R, O, tch)
 	case "let2":
@@ -480,6 +482,9 @@ func bindBody(c HCase, R, raw, O string) string {
 		}
 		return seq("var x, y = "+R+", z0", O, tch)
 	case "letitem":
+		if c.Op == "existing" {
+			return seq("x = 0", "y = 0", "x, y = "+raw, O, tch)
+		}
 		return seq("x, y = "+raw, O, tch)
 	case "send":
 		return seq("hch = make(chan interface, 2)", "hch <- "+R, O, "x = <-hch", tch)
@@ -711,9 +716,9 @@ func heldOracle(c HCase, o *h.Obs) *h.Fail {
 	return h.Failf("C20|operand-not-held|"+site, "%s: %s\n%s", clause, detail, progs)
 }
 
-const heldRule = "held: case = (consumer template, value, place, optional hop around the read); the value sits in v0, is put into a named place, consumed, then the place is overwritten with w0 (same type, other content) and the bound name / the result is read; consumers: x = / x = (existing name) / local of a function / var / two targets / `x, ok = c[k]` / channel send / store into another container / parameter (named, anonymous, closure over it, variadic, second, module function) / return followed by a deferred store; earlier operand of 17 binary operators, in, switch, call arguments (script, Go, variadic, deferred, module function), list / map (value, key) / typed literal, several right-hand sides, first bound of a slice expression, length of make, container of x[i] and x[i:], callee; containers destructured by = / var, iterated by for-in (slice: the current index is overwritten, map: the current key), spread into a fixed-arity script function; places: typed-slice element (first, last), untyped-list element, typed / untyped map entry ([k] and .k), struct field (typed, interface, through a pointer), pointee (new(T), &variable), element two levels down (slice, map, struct field), module member, field of a host struct (typed, interface{}); hops: none, parentheses, ternary, ??, script call (inline, named), Go call; values: ints, floats, strings, bools, nil, typed and untyped slices and maps, a pointer, a function - struct and array values are not generated (reference-like by design) and pointer items are never iterated (O3); baseline = the same program over a plain variable (container templates: the store goes to a twin container); non-trivial = the baseline program succeeds; distinct by chained source text"
+const heldRule = "held: case = (consumer template, value, place, optional hop around the read); the value sits in v0, is put into a named place, consumed, then the place is overwritten (a store of w0: same type, other content; for numbers and strings also place++ and place += 1) and the bound name / the result is read; consumers: x = / x = (existing name) / local of a function / init of a C-style for / var / two targets / `x, ok = c[k]` / channel send / store into another container / parameter (named, anonymous, closure over it, variadic, second, module function) / return followed by a deferred store; earlier operand of 17 binary operators, in, switch, call arguments (script, Go, variadic, deferred, module function), list / map (value, key) / typed literal, several right-hand sides, first bound of a slice expression, length of make, container of x[i] and x[i:], callee; containers destructured by = / var, iterated by for-in (slice: the current index is overwritten, map: the current key), spread into a fixed-arity script function; places: typed-slice element (first, last), untyped-list element, typed / untyped map entry ([k] and .k), struct field (typed, interface, through a pointer), pointee (new(T), &variable), element two levels down (slice, map, struct field), module member, field of a host struct (typed, interface{}); hops: none, parentheses, ternary, ??, script call (inline, named), Go call; values: ints, floats, strings, bools, nil, typed and untyped slices and maps, a pointer, a function, a channel - struct and array values are not generated (reference-like by design) and pointer items are never iterated (O3); baseline = the same program over a plain variable (container templates: the store goes to a twin container); non-trivial = the baseline program succeeds; distinct by chained source text"
 
 func runHeld(c *h.Ctx) {
 	c.Rule(heldRule)
-	h.Run(c, "held", c.N(6000, 60000), genHCase, heldOracle)
+	h.Run(c, "held", c.N(4000, 60000), genHCase, heldOracle)
 }
